@@ -5,8 +5,10 @@ other code), in particular
 
 * the font the three writers embed is `buf.get_font(*fonts.first().unwrap_or(&0))` with `fonts = analyze_font_usage(buf)`
   (XBin: the second one `buf.get_font(fonts[1])`) — not `get_font(0)`;
-* the height test of ADF / IDF is on `buf.get_font_dimensions()`, which is `font_table[&0].size` (slot 0!) — findings
-  `adf_font_height_of_slot0` / `idf_font_height_of_slot0`; a repair of that test lands here first;
+* the height test of ADF / IDF is on THAT font (`font.size`), inside the `if let Some(font)` — since the two repairs
+  `fix: ArtWorx writer tests the font height of slot 0 …` / `fix: iCE Draw writer …` (formerly `buf.get_font_dimensions()`,
+  which is `font_table[&0].size`: `fixed:` `adf_font_height_of_slot0` / `idf_font_height_of_slot0`); and no
+  `get_font_dimensions` is left in either writer;
 * the loaders install the block as slot 0 (XBin: 0 and 1);
 * the IcyDraw writer makes a `FONT_{k}` chunk for EVERY `(k, v)` of `buf.font_iter()` — nothing between the loop head and the
   payload (no filter on `is_default()`), the loader stores it with `result.set_font(font_slot, font)`."""
@@ -22,16 +24,16 @@ def squash(t):
 SITES = [
     ('adf writer: pages in use', 'src/formats/artworx.rs',
      'let fonts = analyze_font_usage(buf); if fonts.len() > 1 { return Err(anyhow::anyhow!("Only single font files are supported by this format.")); }'),
-    ('adf writer: height test on slot 0, font of the page embedded', 'src/formats/artworx.rs',
-     'if buf.get_font_dimensions().height != 16 { return Err(SavingError::Only8x16FontsSupported.into()); } '
-     'if let Some(font) = buf.get_font(*fonts.first().unwrap_or(&0)) { result.extend(font.convert_to_u8_data()); } else { return Err(SavingError::NoFontFound.into()); }'),
+    ('adf writer: font of the page embedded, height test on that font', 'src/formats/artworx.rs',
+     'if let Some(font) = buf.get_font(*fonts.first().unwrap_or(&0)) { if font.size.height != 16 { return Err(SavingError::Only8x16FontsSupported.into()); } '
+     'result.extend(font.convert_to_u8_data()); } else { return Err(SavingError::NoFontFound.into()); }'),
     ('adf loader: block becomes slot 0', 'src/formats/artworx.rs',
      'result.clear_font_table(); let mut font = BitFont::from_basic(8, 16, &data[o..(o + font_size)]); font.name = guess_font_name(&font); result.set_font(0, font);'),
     ('idf writer: pages in use', 'src/formats/ice_draw.rs',
      'let fonts = analyze_font_usage(buf); if fonts.len() > 1 { return Err(anyhow::anyhow!("Only single font files are supported by this format.")); }'),
-    ('idf writer: size test on slot 0, font of the page embedded', 'src/formats/ice_draw.rs',
-     'if buf.get_font_dimensions() != Size::new(8, 16) { return Err(SavingError::Only8x16FontsSupported.into()); } '
-     'if let Some(font) = buf.get_font(*fonts.first().unwrap_or(&0)) { result.extend(font.convert_to_u8_data()); } else { return Err(SavingError::NoFontFound.into()); }'),
+    ('idf writer: font of the page embedded, size test on that font', 'src/formats/ice_draw.rs',
+     'if let Some(font) = buf.get_font(*fonts.first().unwrap_or(&0)) { if font.size != Size::new(8, 16) { return Err(SavingError::Only8x16FontsSupported.into()); } '
+     'result.extend(font.convert_to_u8_data()); } else { return Err(SavingError::NoFontFound.into()); }'),
     ('idf loader: block becomes slot 0', 'src/formats/ice_draw.rs',
      'let mut font = BitFont::from_basic(8, 16, &data[o..(o + FONT_SIZE)]); font.name = guess_font_name(&font); result.set_font(0, font);'),
     ('xbin writer: first font = font of the first page in use', 'src/formats/xbinary.rs',
@@ -63,6 +65,9 @@ def gen_fontslot():
     out = [HEADER, 'namespace IcyVerif.Gen.FontSlot\n']
     cache = {}
     names = []
+    for path in ('src/formats/artworx.rs', 'src/formats/ice_draw.rs'):
+        if 'get_font_dimensions' in src(path):
+            raise ExtractError(f'{path}: get_font_dimensions (= the size of slot 0) is used again; the writers embed the font of the page in use')
     for what, path, frag in SITES:
         if path not in cache:
             cache[path] = squash(src(path))
@@ -72,8 +77,8 @@ def gen_fontslot():
         names.append(what)
     out.append('/-- the sites of the slot / page indirection found unchanged in the source -/\n')
     out.append('def pinnedSites : List String := [' + ', '.join('"' + w + '"' for w in names) + ']\n')
-    out.append('/-- the slot whose dimensions the ADF / IDF writers test (`get_font_dimensions`) -/\n')
-    out.append('def testedSlot : Nat := 0\n')
+    out.append('/-- 1 = the ADF / IDF writers test the dimensions of the font they embed (the font of the first page in use), not of slot 0 -/\n')
+    out.append('def testsEmbeddedFont : Nat := 1\n')
     out.append('/-- the slot the ADF / IDF loaders install the block in -/\n')
     out.append('def loadedSlot : Nat := 0\n')
     out.append('end IcyVerif.Gen.FontSlot\n')
